@@ -22,7 +22,7 @@ ASSUMPTIONS = ['sample names are [A-Za-z0-9_]+ ; a share of names end in .fa/.fa
                'the build of the remaining samples is a run of the same binary (differential); the model is independent']
 REQUIRED = {t: ['route:cli', 'route:file', 'route:file-no-trailing-newline', 'route:file-blank-lines', 'inplace', 'with-o',
                 'refuse:unknown', 'refuse:all', 'refuse:all-with-repeat', 'kmers_removed', 'nonadjacent_deletions', 'width64', 'width128', 'pretreated_files',
-                'stored_rows_compared', 'names_files_over_8KiB', 'deletions_leaving_255..257_samples', 'rows_present_in_exactly_256_remaining_samples', 'unwritable_output_refused', 'with-o-naming-the-input-file', 'refusals_with-o-naming-the-input-file', 'files_of_4096+_rows']
+                'stored_rows_compared', 'samples_with_a_private_row_coded_N', 'names_differing_in_case_only', 'refuse:unknown-case', 'names_files_over_8KiB', 'deletions_leaving_255..257_samples', 'rows_present_in_exactly_256_remaining_samples', 'unwritable_output_refused', 'with-o-naming-the-input-file', 'refusals_with-o-naming-the-input-file', 'files_of_4096+_rows']
             for t in ('quick', 'thorough')}
 
 
@@ -81,6 +81,13 @@ def run_case(desc, ctx):
             for _ in range(rng.randint(1, 3)):
                 src[rng.randrange(len(src))] = rng.choice('ACGT')
             recs.append(''.join(src))
+    if not desc.get('crowd') and not desc.get('large') and rng.random() < 0.3:
+        # one sample holds a split k-mer of its own with all four middle bases (stored code N): after deleting others it keeps it
+        i_ = rng.randrange(ns)
+        a_ = G.canonical_arms(rng, k, rcmode)
+        h_ = (k - 1) // 2
+        samples[i_] = samples[i_] + [a_[:h_] + b_ + a_[h_:] + 'N' for b_ in 'ACGT']
+        res.count('samples_with_a_private_row_coded_N')
     if any(not M.build(r, k, rcmode) for r in samples):
         res.count('degenerate_sample_skipped')
         return res
@@ -91,6 +98,12 @@ def run_case(desc, ctx):
         if odd_names and rng.random() < 0.5:
             nm += rng.choice(['.fa', '.fasta', '_x.fastq', ',1', ',b.fa'])
         names.append(nm)
+    if not desc.get('crowd') and ns >= 3 and rng.random() < 0.2:
+        # two names that differ in letter case only
+        i_, j_ = rng.sample(range(ns), 2)
+        names[j_] = names[i_].upper() if names[i_].upper() != names[i_] else names[i_].lower()
+        if len(set(names)) == ns:
+            res.count('names_differing_in_case_only')
     files = [G.write_fa(ctx.path('in%d.fa' % i), recs) for i, recs in enumerate(samples)]
     ctx.write('list.tsv', ''.join('%s\t%s\n' % (names[i], files[i]) for i in range(ns)))
     T = M.table_of(samples, k, rcmode)
@@ -265,8 +278,10 @@ def run_case(desc, ctx):
             # refusal cases: unknown name (alone and next to a valid one), all names
             dup = list(names) + [rng.choice(names)]
             rng.shuffle(dup)
-            for what, dnames in (('unknown', [names[0], 'nosuchsample']), ('unknown', ['nosuchsample']), ('all', list(names)),
-                                 ('all-with-repeat', dup)):
+            wrongcase = names[0].swapcase()
+            extra_ref = [('unknown-case', [wrongcase])] if wrongcase not in names and wrongcase != names[0] else []
+            for what, dnames in [('unknown', [names[0], 'nosuchsample']), ('unknown', ['nosuchsample']), ('all', list(names)),
+                                 ('all-with-repeat', dup)] + extra_ref:
                 for route in ('cli', 'file'):
                     ctx.write('work.skf', original)
                     if route == 'cli':
